@@ -182,6 +182,7 @@ fn act(a: &Value, l: &Lay, other: &Lay, hit: Hit) -> Option<Lay> {
         "splice_E" => *o.es.get_mut(i0)? = other.es.get(i0)?.clone(),
         "splice_F" => *o.fs.get_mut(i0)? = other.fs.get(i0)?.clone(),
         "flip_flavour" => o.hyb = !o.hyb,
+        "count_traps" | "count_entries" => {}
         _ => return None,
     }
     Some(o)
@@ -325,7 +326,26 @@ pub fn run(args: &[String]) -> Result<(), String> {
             if !ok {
                 continue;
             }
-            let mutant = cur.bytes();
+            let mut mutant = cur.bytes();
+            // framing actions rewrite a count byte of the serialized form and leave everything else in place
+            for a in actions.iter() {
+                let name = a["a"].as_str().unwrap_or("");
+                let d = a["d"].as_str().unwrap_or("");
+                let traps_at = TAG;
+                let entries_at = TAG + 1 + cur.traps.len() * PT + 1;
+                let (at, n) = match name {
+                    "count_traps" => (traps_at, cur.traps.len()),
+                    "count_entries" => (entries_at, cur.fs.len()),
+                    _ => continue,
+                };
+                if at < mutant.len() {
+                    mutant[at] = match d {
+                        "up" => (n + 1) as u8,
+                        "down" => n.saturating_sub(1) as u8,
+                        _ => (n + 5 + (h.pos % 90)) as u8,
+                    };
+                }
+            }
             if (mutant == sc.enc) != identity {
                 // the byte-level twin disagrees with the model about identity: report as its own class
                 let rec = json!({"n": n, "hyb": hyb, "actions": c["actions"], "identity": identity, "key": "twin",
